@@ -111,7 +111,7 @@ def gen_case(rng, big=False, no_repack=False):
         for p in f["packs"]: t += pk(p)
         t += [len(f["dele"])]
         for p in f["dele"]: t += pk(p)
-    st = dict(now=now, keep_delete=keep_delete, keep_pack=keep_pack, instant=opts["instant"], files=files, packs={p["id"]: p for p in packs},
+    st = dict(now=now, keep_delete=keep_delete, keep_pack=keep_pack, instant=opts["instant"], opts=opts, mu=mu, mr=mr, files=files, packs={p["id"]: p for p in packs},
               used=used, used_typed=used_typed, existing=dict(existing), big=big)
     return " ".join(map(str, t)), st
 
@@ -172,6 +172,47 @@ def impl_cover_oracle(st, a):
         repacked = any(todo == "Repack" and any(b[0] == i and b[1] == t for b in st["packs"][pid]["blobs"]) for pid, todo in dec.items())
         if not (inleft and repacked): lost.append((t, i))
     return lost
+
+
+U64 = 2 ** 64 - 1
+
+
+def option_oracle(st, a, md):
+    """The documented semantics of the repack options (theorems max_repack_respected, max_unused_respected,
+    no_resize_keeps_sizes, keep_pack_protects_young_packs, repack_all_repacks_everything_not_young) evaluated
+    on the IMPLEMENTATION's decisions; per-pack used/unused bytes and candidate reasons come from the model's
+    accounting (only evaluated when the accounting statistics of both sides agree)."""
+    bad = []
+    dec = {int(x.split(":")[1]): (x.split(":")[2], x.split(":")[3]) for x in a["d"]}
+    sz = {int(x.split(":")[0]): (int(x.split(":")[1]), int(x.split(":")[2])) for x in md.get("sz", [])}
+    info = {int(x.split(":")[0]): (int(x.split(":")[1]), int(x.split(":")[2]), x.split(":")[3]) for x in md.get("x", [])}
+    o = st["opts"]
+    stats = [int(v) for v in a["stats"]]
+    used_total, unused_total = stats[4] + stats[6], stats[5] + stats[7]
+    ru = o["unc"] or o["all"]
+    k, v = st["mr"]
+    L = None if k == 0 else (v if k == 2 else min(v * (used_total + unused_total), U64) // 100)
+    k, v = st["mu"]
+    MU = 0 if ru else (None if k == 0 else (v if k == 2 else (None if v >= 100 else min(v * used_total, U64) // (100 - v))))
+    repacked = sum(sz[p][0] for p, (m, t) in dec.items() if t == "Repack")
+    if L is not None and repacked > L:
+        bad.append("max_repack: %d used bytes are repacked, the limit is %d" % (repacked, L))
+    if L is None and MU is not None:
+        removed = sum(sz[p][1] for p, (m, t) in dec.items() if t == "MarkDelete")
+        after = unused_total - removed - sum(sz[p][1] for p, (m, t) in dec.items() if t == "Repack")
+        for p, (m, t) in dec.items():
+            if t == "Keep" and info[p][2] == "P" and st["packs"][p]["tpe"] == 1 and after >= MU and not (o["cacheable_only"]):
+                bad.append("max_unused: partly used data pack %d is kept although %d unused bytes stay (limit %d) and max_repack is unlimited" % (p, after, MU)); break
+    for p, (m, t) in dec.items():
+        pk = st["packs"][p]
+        young = pk["time"] is not None and pk["time"] > st["now"] - st["keep_pack"]
+        if m == "0" and young and t != "Keep":
+            bad.append("keep_pack: pack %d is younger than keep_pack but decided %s" % (p, t))
+        if o["no_resize"] and info[p][2] == "S" and t != "Keep":
+            bad.append("no_resize: pack %d is a candidate only because of its size but decided %s" % (p, t))
+        if o["all"] and L is None and m == "0" and info[p][0] >= 1 and not young and not (o["cacheable_only"] and pk["tpe"] == 1) and t != "Repack":
+            bad.append("repack_all: pack %d holds used blobs, is not too young, but is decided %s" % (p, t))
+    return bad
 
 
 def exec_oracle(st, a, x):
@@ -363,7 +404,7 @@ def run(ctx):
         if "case" in rp.get("witness", {}):
             lines = [rp["witness"]["case"]]; cases = [(lines[0], None)]
     impl_out = run_lines(impl, lines, "impl")
-    mism, hist, nontriv, weak, typed_viol, samples, cover_viol = [], {}, set(), 0, [], [], []
+    mism, hist, nontriv, weak, typed_viol, samples, cover_viol, option_viol = [], {}, set(), 0, [], [], [], []
     boundary = {"mark_time+keep_delete==now": 0, "pack_time+keep_pack==now": 0, "copies>=255": 0}
     if model:
         model_out = run_lines(model, lines, "model")
@@ -380,6 +421,9 @@ def run(ctx):
             if st and io.startswith("ok"):
                 lost_i = impl_cover_oracle(st, parse_out(io))
                 if lost_i: cover_viol.append((line, lost_i, io))
+                if mpart.startswith("ok") and diag and parse_out(io)["stats"][:11] == parse_out(mpart)["stats"][:11]:
+                    ob = option_oracle(st, parse_out(io), parse_out("ok " + diag))
+                    if ob: option_viol.append((line, ob, io))
             if io != mpart:
                 md = parse_out("ok " + diag) if diag else {}
                 ok_weak = False
@@ -432,7 +476,8 @@ def run(ctx):
                     and sorted(set(md.get("removed", []))) == sorted(x.get("xrm", [])) and md.get("kept_files") == x.get("xkept"))
             if not same: xmism.append({"case": line, "impl": xs, "model": diag})
     cov.update({"executor_cases_run_on_real_prune_repository": xrun, "executor_model_mismatches": len(xmism),
-                "executor_oracle_violations": len(xviol), "impl_plan_cover_oracle_violations": len(cover_viol)})
+                "executor_oracle_violations": len(xviol), "impl_plan_cover_oracle_violations": len(cover_viol),
+                "impl_option_semantics_violations": len(option_viol)})
     cov.update({"planner_cases": len(cases), "model_impl_mismatches": len(mism), "compared_weakly_because_of_equal_sort_keys": weak,
                 "boundaries_hit": boundary, "typed_oracle_losses_on_model": len(typed_viol)})
     # 5. end-to-end histories on the real library
@@ -518,6 +563,10 @@ def run(ctx):
     for line, lost_i, io in cover_viol[:10]:
         ctx.violation("prune plan loses a referenced blob: it is neither in a pack that is kept/recovered nor handed to the repacker",
                       {"case": line, "lost_type_id": lost_i, "impl_plan": io[:1500],
+                       "how_to_replay": "echo '<case>' | <target>/debug/c02 -   (format: harness/src/bin/c02.rs)"})
+    for line, ob, io in option_viol[:10]:
+        ctx.violation("prune plan does not honour a repack option: " + re.sub(r"\d+", "N", ob[0]),
+                      {"case": line, "all": ob[:8], "impl_plan": io[:1500],
                        "how_to_replay": "echo '<case>' | <target>/debug/c02 -   (format: harness/src/bin/c02.rs)"})
     for line, bad, io in xviol[:10]:
         ctx.violation("prune execution breaks the two-phase delete: " + re.sub(r"\d+", "N", bad[0]),
